@@ -49,8 +49,9 @@ def val(sheet, r, c, l):
 
 
 def header(c, l, delim="::"):
+    """delim may carry optional spaces around the colon(s): 'label : fr', 'label:: fr'"""
     base = c if c not in MEDIA else f"media{delim}{c}"
-    if c in MEDIA and delim == ":":
+    if c in MEDIA and delim.strip() == ":":
         base = c
     return base if not l else f"{base}{delim}{l}"
 
